@@ -503,3 +503,29 @@ func reachIn(p *an.Prog, root *ssa.Function, pkgs ...string) []*ssa.Function {
 	sort.Slice(out, func(i, j int) bool { return sk(out[i]) < sk(out[j]) })
 	return out
 }
+
+// apiOwner names a finding's site by the exported function it belongs to: an unexported helper with a single
+// module caller is attributed to that caller (transitively), so that factoring a block out of a method does not
+// rename the construct a known finding is keyed by.
+func apiOwner(p *an.Prog, f *ssa.Function) *ssa.Function {
+	for i := 0; i < 4; i++ {
+		if f.Object() == nil || f.Object().Exported() {
+			return f
+		}
+		var from *ssa.Function
+		n := 0
+		for _, cl := range p.Callers(f) {
+			if cl.From != nil && cl.From != f && p.InModule(cl.From) {
+				if from != cl.From {
+					n++
+				}
+				from = cl.From
+			}
+		}
+		if n != 1 || from == nil {
+			return f
+		}
+		f = from
+	}
+	return f
+}
